@@ -35,6 +35,9 @@ type Cfg struct {
 	// NoRedirectSpy leaves out the observer middleware on the built-in redirect handler, so that a router can be built
 	// without any global middleware at all (requests answered by that handler then leave no Hit).
 	NoRedirectSpy bool
+	// BuiltinHandlers leaves fox's own no-route, no-method and options handlers in place (switched on through
+	// WithNoMethod / WithAutoOptions) instead of the recording ones: such answers are visible as status and headers only.
+	BuiltinHandlers bool
 }
 
 func (c Cfg) String() string {
@@ -144,14 +147,17 @@ func init() {
 // Build creates the router.
 func Build(cfg Cfg, extra ...fox.GlobalOption) (*World, error) {
 	cacheSize = cfg.CacheSize
-	opts := []fox.GlobalOption{
-		fox.WithNoRouteHandler(special(model.KNoRoute)),
-	}
-	if cfg.NoMethod {
-		opts = append(opts, fox.WithNoMethodHandler(special(model.KNoMethod)))
-	}
-	if cfg.AutoOptions {
-		opts = append(opts, fox.WithOptionsHandler(special(model.KOptions)))
+	var opts []fox.GlobalOption
+	if cfg.BuiltinHandlers {
+		opts = append(opts, fox.WithNoMethod(cfg.NoMethod), fox.WithAutoOptions(cfg.AutoOptions))
+	} else {
+		opts = append(opts, fox.WithNoRouteHandler(special(model.KNoRoute)))
+		if cfg.NoMethod {
+			opts = append(opts, fox.WithNoMethodHandler(special(model.KNoMethod)))
+		}
+		if cfg.AutoOptions {
+			opts = append(opts, fox.WithOptionsHandler(special(model.KOptions)))
+		}
 	}
 	switch cfg.GlobalTS {
 	case 1:
